@@ -57,6 +57,11 @@ CHECKS = {
    text="A real pkg/database.DB (store plus its KV/SQL/document indexers) inside the bubble; 2-5 client tasks issue Set, two-key Set, Set with a precondition (must exist / must not exist / not modified after tx), Delete, Get, Scan and History over 4 keys with unique values while index flush/compaction runs; every call and return is stamped with the simulator's global event sequence number. Oracle (a), exact and polynomial because every write returns its tx id: each read must equal the model at some state between the last write that returned before the read was invoked and the last write invoked before it returned; a conditional write must have been applied iff its precondition holds on the state immediately preceding it in commit order (a refused one must have been false in some state of its interval). Oracle (b): porcupine (CheckOperationsTimeout, 10 s) on the per-key register histories of single-key operations; Illegal is a violation, Unknown is counted as inconclusive.",
    note="Not generated yet: ExecAll, SetReference, ZAdd/ZScan, GetAll, Count, Get with SinceTx/AtTx/AtRevision. Transient 'limit exceeded' / 'read conflict' errors of writes are treated as no-effect failures.",
    technique="deterministic simulation: seeded concurrent client histories, tx-id interval check + porcupine linearizability"),
+ "C07": dict(
+   level="exploration", design="DESIGN.md §7 C07 (layer A)",
+   text="Store-level replication in one bubble: a primary store builds a history with concurrent committers (tx metadata, empty values, header v0/v1, optionally truncated so that old transactions are exported by digest); the messages are ExportTx(i); 1-3 replica worker tasks deliver them to ReplicateTx out of order inside the concurrency window, duplicated, retried after (simulated) time-outs, with and without integrity-check skipping, interleaved with altered copies (bit flips, truncation, trailer and length-field edits, appended bytes), replica close/reopen and DiscardPrecommittedTxsSince. Oracle: no panic; an altered message is rejected or leaves exactly the primary's transaction; duplicates report 'already committed'; once faults stop the replica reaches the primary's frontier (liveness bound); every replicated transaction has the primary's id, header, entries, values (digests when truncated) and Alh; the replica's index answers like the model of the primary's history and its dual proofs verify against the primary's states.",
+   note="Layer B of the design (pkg/database + the real TxReplicator over a simulated network, synchronous replication acks and their durability) is NOT built: the 'primary reports committed only after the required replicas durably hold it' clause is not decided by this check.",
+   technique="deterministic simulation: seeded delivery schedules + altered-message injection vs primary ledger"),
 }
 
 NOT_APPLICABLE = [
